@@ -10,6 +10,8 @@ C10 tables, re-extracted on every run and written to lean/Ptk/Gen/C10Display.lea
                      split into prefix / suffix around the decimal amount
   the running interpreter's `wcwidth` (the function prompt_toolkit.utils.get_cwidth wraps):
                      inclusive code point ranges whose wcwidth is not 1, as (lo, hi, w)
+  the running interpreter's `str.isprintable` (fast path of layout/screen.py get_display_width):
+                     inclusive code point ranges that are not printable
 
 The wcwidth scan over all 1 114 112 code points takes ~3 s, so it is cached in
 /verif/.work keyed on the hash of the wcwidth package's source files (it is not part of /repo).
@@ -66,6 +68,29 @@ def wc_ranges() -> list[tuple[int, int, int]]:
     return out
 
 
+def nonprintable_ranges() -> list[tuple[int, int]]:
+    """inclusive code point ranges where `str.isprintable()` is False (running interpreter; cached on
+    the interpreter's Unicode database version)"""
+    import sys
+    import unicodedata
+
+    work = os.path.join(G.ROOT, ".work")
+    os.makedirs(work, exist_ok=True)
+    key = hashlib.sha256((sys.version + unicodedata.unidata_version).encode()).hexdigest()[:20]
+    cache = os.path.join(work, f"c10_isprintable_{key}.json")
+    if os.path.exists(cache):
+        try:
+            return [tuple(x) for x in json.load(open(cache))]
+        except Exception:
+            pass
+    out = G.ranges(lambda c: not c.isprintable())
+    tmp = cache + ".tmp%d" % os.getpid()
+    with open(tmp, "w") as fh:
+        json.dump(out, fh)
+    os.replace(tmp, cache)
+    return out
+
+
 def emitted(call) -> str:
     """what one emitter call of a REAL Vt100_Output buffers (fresh object per call)"""
     from prompt_toolkit.data_structures import Size
@@ -111,6 +136,17 @@ def generate() -> None:
              "  | (a, b, w) :: rest, n => if n < a then 1 else if n ≤ b then w else wcFind rest n\n\n")
     body += "/-- `wcwidth.wcwidth(c)` of the running interpreter (ranges are sorted, so the scan stops early) -/\n"
     body += "def wcwidth (c : Char) : Int := wcFind wcRanges c.toNat\n\n"
+
+    body += "/-- inclusive code point ranges where `str.isprintable()` is False (surrogates not listed) -/\n"
+    nps = nonprintable_ranges()
+    body += "def nonPrintableRanges : List (Nat × Nat) := [\n  "
+    body += ",\n  ".join(", ".join(f"({a}, {b})" for a, b in nps[i:i + 10]) for i in range(0, len(nps), 10))
+    body += "]\n\n"
+    body += ("def npFind : List (Nat × Nat) → Nat → Bool\n"
+             "  | [], _ => false\n"
+             "  | (a, b) :: rest, n => if n < a then false else if n ≤ b then true else npFind rest n\n\n")
+    body += "/-- `c.isprintable()` of the running interpreter -/\n"
+    body += "def isPrintable (c : Char) : Bool := !npFind nonPrintableRanges c.toNat\n\n"
 
     from prompt_toolkit.output.vt100 import Vt100_Output as V
 
